@@ -353,6 +353,7 @@ class H2Protocol:
                     # Release any send waiting on flow control
                     await self.stream_buffers[event.stream_id].close()
                 await self._window_updated(event.stream_id)
+                await self.send(Updated(idle=self.idle))
             elif isinstance(event, h2.events.WindowUpdated):
                 await self._window_updated(event.stream_id)
             elif isinstance(event, h2.events.PriorityUpdated):
